@@ -9,6 +9,7 @@
 //! pattern, strings as hex of the UTF-8 bytes (`-` for the empty string).
 //! Results: `ok <value…>` | `err` | `panic` | `hang`.
 
+mod binfmt;
 mod codec;
 mod consts;
 mod gen;
